@@ -2,6 +2,7 @@
 Each prints the rewritten module; the defect is visible in the text (see notes/C39.md, notes/C34.md)."""
 import os
 import pathlib
+import shutil
 import tempfile
 
 from loki import Scheduler
@@ -23,6 +24,7 @@ def run(title, src, *trafos):
     for t in trafos:
         s.process(transformation=t)
     print(f'----- {title}\n{s.items[0].source.to_fortran()}')
+    shutil.rmtree(d, ignore_errors=True)
 
 
 P = """module m
